@@ -80,8 +80,22 @@ class Roles:
         self.db.add((self.tx_path, 0))
         self._fix()
 
-    def roles_in_inputs(self, sig):
-        """{region name: set of roles} from the inputs of a signature"""
+    def roles_in_inputs(self, sig, preds=None):
+        """{region name: set of roles} from the inputs of a signature; with the function's predicates, a region that the transaction borrow outlives (`where 'a: 'b`
+        with `&'a self`) is itself within the borrow"""
+        roles = self._roles_in_inputs(sig)
+        for _ in range(4):
+            grew = False
+            for pr in preds or []:
+                if pr.get('k') == 'region_outlives' and isinstance(pr.get('a'), str) and isinstance(pr.get('b'), str):
+                    if (roles.get(pr['a'], set()) & {'txb', 'borrow-of-carrier'}) and 'txb' not in roles.get(pr['b'], set()):
+                        roles.setdefault(pr['b'], set()).add('txb')
+                        grew = True
+            if not grew:
+                break
+        return roles
+
+    def _roles_in_inputs(self, sig):
         roles = {}
 
         def add(r, role):
@@ -114,7 +128,7 @@ class Roles:
                 if f.kind == 'Closure' or 'sig' not in f.j:
                     continue
                 sig = fn_sig(f)
-                roles = self.roles_in_inputs(sig)
+                roles = self.roles_in_inputs(sig, f.j.get('predicates'))
                 for n in walk(sig['output']):
                     if n.get('k') == 'adt' and n.get('local'):
                         for i, a in enumerate(n['args']):
@@ -198,7 +212,7 @@ def sig_rule(ctx, rule='C14.sig'):
             continue
         n += 1
         sig = fn_sig(fn)
-        roles = R.roles_in_inputs(sig)
+        roles = R.roles_in_inputs(sig, fn.j.get('predicates'))
         involves_tx = any(('txb' in r) or ('borrow-of-carrier' in r) for r in roles.values()) or \
             any(nd.get('k') == 'adt' and any((nd['path'], i) in R.txb for i in range(len(nd['args']))) for inp in sig['inputs'] for nd in walk(inp))
         if not involves_tx:
